@@ -469,6 +469,18 @@ impl WalRecord {
     }
 }
 
+/// Harness access to the private record codec (feature `verif-hooks` only).
+#[cfg(feature = "verif-hooks")]
+impl WalRecord {
+    pub fn verif_encode_body(&self) -> Result<Vec<u8>> {
+        self.encode_body()
+    }
+
+    pub fn verif_decode_body(body: &[u8]) -> Result<Self> {
+        Self::decode_body(body)
+    }
+}
+
 #[derive(Debug)]
 pub struct Wal {
     path: PathBuf,
@@ -478,6 +490,7 @@ pub struct Wal {
 impl Wal {
     pub fn open(path: impl AsRef<Path>) -> Result<Self> {
         let path = path.as_ref().to_path_buf();
+        vio!(Create { path: path.clone() });
         let file = OpenOptions::new()
             .read(true)
             .write(true)
@@ -505,8 +518,11 @@ impl Wal {
 
         let offset = file.metadata()?.len();
         file.seek(SeekFrom::End(0))?;
+        vio!(Append { path: self.path.clone(), data: len.to_le_bytes().to_vec() });
         file.write_all(&len.to_le_bytes())?;
+        vio!(Append { path: self.path.clone(), data: crc.to_le_bytes().to_vec() });
         file.write_all(&crc.to_le_bytes())?;
+        vio!(Append { path: self.path.clone(), data: body.clone() });
         file.write_all(&body)?;
         file.flush()?;
         Ok(offset)
@@ -516,6 +532,7 @@ impl Wal {
         let Some(file) = self.file.as_mut() else {
             return Err(Error::WalProtocol("wal file is closed"));
         };
+        vio!(Sync { path: self.path.clone() });
         file.sync_data()?;
         Ok(())
     }
@@ -530,6 +547,9 @@ impl Wal {
         };
 
         {
+            vio!(Create { path: tmp.clone() });
+            #[cfg(feature = "verif-hooks")]
+            crate::verif::set_io_ctx(Some(&tmp));
             let mut tmp_file = OpenOptions::new()
                 .write(true)
                 .create_new(true)
@@ -541,8 +561,14 @@ impl Wal {
                 let len =
                     u32::try_from(body.len()).map_err(|_| Error::WalRecordTooLarge(u32::MAX))?;
                 let crc = crc32(&body);
+                #[cfg(feature = "verif-hooks")]
+                crate::verif::io_append_ctx(&len.to_le_bytes())?;
                 file.write_all(&len.to_le_bytes())?;
+                #[cfg(feature = "verif-hooks")]
+                crate::verif::io_append_ctx(&crc.to_le_bytes())?;
                 file.write_all(&crc.to_le_bytes())?;
+                #[cfg(feature = "verif-hooks")]
+                crate::verif::io_append_ctx(&body)?;
                 file.write_all(&body)?;
                 Ok(())
             }
@@ -553,9 +579,11 @@ impl Wal {
             }
             append_to(&mut tmp_file, &WalRecord::CommitTx { txid })?;
             tmp_file.flush()?;
+            vio!(Sync { path: tmp.clone() });
             tmp_file.sync_data()?;
         }
 
+        vio!(Rename { from: tmp.clone(), to: self.path.clone() });
         // Best-effort replace (POSIX: rename overwrites; Windows: needs remove first).
         if std::fs::rename(&tmp, &self.path).is_err() {
             if self.path.exists() {
@@ -564,6 +592,7 @@ impl Wal {
             std::fs::rename(&tmp, &self.path)?;
         }
 
+        vio!(Create { path: self.path.clone() });
         let file = OpenOptions::new()
             .read(true)
             .write(true)
